@@ -95,7 +95,8 @@ theorem C06c_spec_holds_repaired (cfg : Cfg) (hcfg : cfg.cleanEnter = true) (def
   obtain ⟨w', hw, _⟩ := run_accepted cfg defs nvars ops _ _ (rel_init defs nvars) (Or.inl hcfg)
   simp [spec, hw]
 
-/-- the hypothesis of `C06c_spec_partial` is needed for today's code: a context whose resume() raised inside `__enter__`
+/-- the hypothesis of `C06c_spec_partial` is needed for the code BEFORE the repair of `__enter__` (`leakyCfg`; /repo commit
+    cfff886 repaired it): a context whose resume() raised inside `__enter__`
     (the exception escapes, the with-block is NOT entered, `__exit__` will never run) stays registered with the task and
     gets pause() at the next suspension -/
 theorem C06c_enter_leak_counterexample :
@@ -237,7 +238,8 @@ theorem C06c_exit_keeps_the_others (cfg : Cfg) (defs : List Kind) (s : St) (c : 
 
 /-! ## consequences of the simulation for the states REACHED by arbitrary histories -/
 
-/-- every history (of today's code: without a resume() raising inside `__enter__`) leads to a state that the
+/-- every history (of the unrepaired code: without a resume() raising inside `__enter__`; of the repaired code: every history)
+    leads to a state that the
     observer's picture describes - or the history misused a block and the observer has stopped -/
 theorem C06c_reachable (cfg : Cfg) (defs : List Kind) (nvars : Nat) (ops : List Op)
     (h : cfg.cleanEnter = true ∨ noEnterRaise (run cfg defs (init defs nvars) ops) = true) :
